@@ -1,0 +1,6 @@
+//go:build !verif
+
+package graphql
+
+// verifCount is a no-op without the `verif` build tag (see verif_counters_on.go).
+func verifCount(i int) {}
